@@ -144,11 +144,11 @@ func reachU(start ipos, stop func(ssa.Instruction) bool) map[ssa.Instruction]boo
 				}
 				fn := in.Parent()
 				if isPrivateHelper(fn) {
-					k := fmt.Sprintf("ret %p %p", fn, ret)
+					k := fmt.Sprintf("ret %p %p %s", fn, ret, known.key())
 					if !seen[k] {
 						seen[k] = true
 						for _, s := range curSites.sites[fn] {
-							walk(posAfter(s), nil, knownResults{}.withReturn(s, ret))
+							walk(posAfter(s), nil, known.withReturn(s, ret))
 						}
 					}
 				}
